@@ -403,11 +403,126 @@ def run(ctx):
         'every document parsed before')
     cache_invalidation(ctx)
     answers_not_cached(ctx)
+    members_filed(ctx)
     ctx.floor('C15.D5', 4)
     ctx.floor('C15.D1', 8)
     ctx.floor('C15.D2', 4)
     ctx.floor('C15.D3', 5)
     ctx.floor('C15.D4', 5)
+
+
+def members_filed(ctx):
+    """C15.D1 `member-filed:<kind>`: the reader records every member the
+    document declares.  `end_<kind>` must hand `self.member` to the
+    interface's `add<Kind>` on every path; a path that does not is accepted
+    only as a de-duplication *within that kind and that interface*: its guard
+    is a membership test in the interface's own table of that kind, or in a
+    container of the reader that only `end_<kind>` fills and that
+    `start_interface` empties whenever it starts a new interface.  (Methods,
+    signals and properties have separate name spaces: `Seek` the method and
+    `Seek` the signal are two members.)"""
+    prog = ctx.prog
+    ih = prog.cls(IH)
+    selft = ('param', 'self')
+    iface_t = ('attr', selft, 'iface')
+    member_t = ('attr', selft, 'member')
+    di = prog.cls('interface.DBusInterface')
+    kinds = (('method', 'addMethod'), ('signal', 'addSignal'),
+             ('property', 'addProperty'))
+    enders = {k: prog.lookup_method(ih, 'end_' + k) for k, _ in kinds}
+
+    def fills(attr):
+        """names of the reader's methods from which self.<attr> grows"""
+        out = set()
+        for name, f in ih.methods.items():
+            if not name.startswith(('start_', 'end_')):
+                continue       # helpers are reached through the handlers
+            for p in Interp(prog, exc_edges=False, self_cls=ih,
+                            max_paths=400).run(f):
+                for c in p.calls(deep=True):
+                    if kind(c[2]) == 'attr' and c[2][1] == (
+                            'attr', selft, attr) and c[2][2] in (
+                                'add', 'append', 'update', 'extend',
+                                'setdefault', 'insert'):
+                        out.add(name)
+                for e in iter_events(p.trace, deep=True):
+                    if e[0] == 'setsub' and e[1] == ('attr', selft, attr):
+                        out.add(name)
+        return out
+
+    def emptied_with_new_interface(attr):
+        si = prog.lookup_method(ih, 'start_interface')
+        if si is None:
+            return False
+        ok = None
+        for p in Interp(prog, exc_edges=False, self_cls=ih).run(si):
+            new = [e for e in iter_events(p.trace, deep=True)
+                   if e[0] == 'setattr' and e[1] == selft and
+                   e[2] == 'iface']
+            if not new:
+                continue
+            fresh = [e for e in iter_events(p.trace, deep=True)
+                     if e[0] == 'setattr' and e[1] == selft and e[2] == attr
+                     and (e[3] in (('set', ()), ('list', ()), ('dict', ()))
+                          or (kind(e[3]) == 'call' and e[3][1] in (
+                              'set', 'list', 'dict') and not e[3][3]))]
+            ok = bool(fresh) if ok is None else (ok and bool(fresh))
+        return bool(ok)
+    for k, adder in kinds:
+        fi = enders[k]
+        if fi is None:
+            raise AnalysisError('anchor vanished: %s.end_%s' % (IH, k))
+        afi = prog.lookup_method(di, adder)
+        table = None
+        if afi is not None:
+            for p in Interp(prog, exc_edges=False).run(afi):
+                for e in p.trace:
+                    if e[0] == 'setsub' and kind(e[1]) == 'attr' and \
+                            e[1][1] == selft:
+                        table = e[1][2]
+        n = 0
+        for p in Interp(prog, exc_edges=False, self_cls=ih).run(fi):
+            if p.outcome == 'raise':
+                continue
+            n += 1
+            adds = [c for c in p.calls(deep=True) if kind(c[2]) == 'attr'
+                    and c[2][2] == adder and c[2][1] == iface_t and
+                    c[3] == (member_t,)]
+            ok = len(adds) == 1
+            why = ''
+            if not adds:
+                why = 'no guard that is a membership test'
+                for c, pol in p.cond:
+                    if kind(c) != 'cmp' or c[1] not in ('in', 'not in') or \
+                            (c[1] == 'in') != pol:
+                        continue
+                    cont = c[3]
+                    if kind(cont) == 'call' and kind(cont[2]) == 'attr' \
+                            and cont[2][2] in ('keys',):
+                        cont = cont[2][1]
+                    if table and cont == ('attr', iface_t, table):
+                        ok = True
+                    elif kind(cont) == 'attr' and cont[1] == selft:
+                        who = fills(cont[2])
+                        if who <= {'end_' + k} and \
+                                emptied_with_new_interface(cont[2]):
+                            ok = True
+                        else:
+                            why = ('the guard looks in self.%s, which is '
+                                   'filled from %s%s' % (
+                                       cont[2], sorted(who) or 'nowhere',
+                                       '' if emptied_with_new_interface(
+                                           cont[2]) else
+                                       ' and is not emptied when a new '
+                                       'interface starts'))
+            ctx.ob('C15.D1', fi.qualname, 'member-filed:%s' % k, ok,
+                   'the reader does not record a declared %s on this path '
+                   '(%s): each kind of member has a name space of its own - '
+                   'a %s named like a member of another kind, or like a '
+                   'member of an earlier interface, is lost from the parsed '
+                   'interface' % (k, why, k))
+        if not n:
+            raise AnalysisError('%s: no path' % fi.qualname)
 
 
 def cache_invalidation(ctx):
